@@ -133,6 +133,18 @@ CLAIMED = {
         note=('The 2^32 sweep is sampled enumeration in the harness, not TLC. Not judged: LIS code 50 with negative exponent field, '
               'VSINGL values (conflicting sources offline), FDOUBL. Known finding F17 (to68(-2^127)).'),
         technique='TLA+ reference operators + TLC-checked encoder laws and TLC-written oracle tables; exact comparison of all implementations'),
+    'C20': dict(
+        category='model_checking', design='3/C20',
+        text=('TLC checks the ordered decision list of binary_file_type over feature records (FileType.tla): for every '
+              'supported well-log format the format-derived set of valid feature records is classified as its own type (no '
+              'shadowing by an earlier entry), with the stated 276-byte TIF exclusion shown to be necessary.  Files of every '
+              'format and layout class from the other generators (RP66V1 SUL variants and layouts, LIS plain/TIF/reversed '
+              'starting with reel, tape or file header, LAS 1.2/2.0 with leading comments, BIT, DAT) must be identified as '
+              'their own type via file object and via path; fault enumeration (truncation at every byte, bit flips and '
+              'overwrites over the first 512 bytes of one file per class, EBCDIC / partial SUL / partial TIF prefixes, random '
+              'strings) checks documented code or empty string, no exception, position 0, file still readable, bounded time.'),
+        note='The feature abstraction is trusted to describe the byte tests; fault enumeration is systematic but finite.',
+        technique='TLA+ spec + TLC check of the decision list; generated files of every format replayed; systematic fault enumeration'),
 }
 
 NOT_YET = 'check not built yet in this session; planned per DESIGN.md section 3'
